@@ -461,6 +461,14 @@ class Linker:
         # A wrong situation occurs, when reducing the image by small amount
         # of bytes. Locations that were aligned before, might become unaligned.
 
+        # Punching holes moves code towards the start of its image. A
+        # distance between two images can grow that way, so only jumps
+        # within one image are candidates.
+        image_of = {}
+        for image in self.dst.images:
+            for image_section in image.sections:
+                image_of[image_section.name] = image
+
         # First, determine the list of possible optimizations!
         lst = []
         for relocation in self.dst.relocations:
@@ -474,6 +482,11 @@ class Linker:
             reloc = rcls(
                 None, offset=relocation.offset, addend=relocation.addend
             )
+            symbol = self.dst.symbols_by_id[relocation.symbol_id]
+            if image_of.get(symbol.section) is not image_of.get(
+                relocation.section
+            ):
+                continue
             if reloc.can_shrink(sym_value, reloc_value):
                 # Apply code patching:
                 begin = relocation.offset
